@@ -228,10 +228,16 @@ class SimConnection(object):
         self.own_tids = set()
         self.log = log if log is not None else []
         self.closed = False
+        self._inlined = None
         # statistics for the scenarios
         self.n_setstate = 0
         self.n_register = 0
         self.n_readcurrent = 0
+        # [(kind, oid)]: conditions under which a *known* defect of the
+        # package corrupts the stored state (see known_findings.json);
+        # "inline-duplicate": a leaf was serialised inline in its parent
+        # node's record and also got a record of its own in the same commit
+        self.hazards = []
 
     # -- persistent.interfaces.IPersistentDataManager
     def setstate(self, obj):
@@ -331,7 +337,12 @@ class SimConnection(object):
             return None
         p.persistent_id = pid
         p.dump(canonical_class(obj))
-        p.dump(obj.__getstate__())
+        state = obj.__getstate__()
+        if isinstance(state, tuple) and len(state) == 1 and \
+                self._inlined is not None and \
+                getattr(obj, "_firstbucket", None) is not None:
+            self._inlined.append((obj, obj._firstbucket))
+        p.dump(state)
         return f.getvalue()
 
     def commit(self, crash=None):
@@ -342,6 +353,7 @@ class SimConnection(object):
         work = list(self.registered)
         seen = set()
         written = []
+        self._inlined = []
         try:
             i = 0
             while i < len(work):
@@ -370,6 +382,10 @@ class SimConnection(object):
         except ConflictError:
             self.abort()
             raise
+        for node, leaf in self._inlined:
+            if leaf._p_oid is not None:
+                self.hazards.append(("inline-duplicate", node._p_oid))
+        self._inlined = None
         # tpc_vote passed
         if crash == "after_vote":
             raise CrashInCommit()
